@@ -136,7 +136,7 @@ func c13r1(c *core.Ctx) {
 	}
 	// frozen benign: everything below World.componentID (first-time registration from Rel[C] inside Query)
 	benign := map[*core.Func]bool{}
-	if f := m.FuncNamed("World.componentID"); f != nil {
+	if f := componentRegistrar(c); f != nil {
 		var mark func(g *core.Func)
 		mark = func(g *core.Func) {
 			if benign[g] {
@@ -154,7 +154,7 @@ func c13r1(c *core.Ctx) {
 		}
 		mark(f)
 	} else {
-		c.Undecide("C13/R1", "benign entry", "World.componentID not found")
+		c.Undecide("C13/R1", "benign entry", "the function registering component types through storage.registry was not found")
 	}
 	// entry lockset per function: intersection over call sites reachable from the entries
 	entryLocks := map[*core.Func]string{}
@@ -585,4 +585,33 @@ func freshSlice(m *core.Model, f *core.Func, e ast.Expr, depth int) bool {
 		}
 	}
 	return false
+}
+
+// componentRegistrar: the function that registers component types through the storage's registry (the call whose
+// receiver path goes through storage.registry and whose callee can insert into the type map).
+func componentRegistrar(c *core.Ctx) *core.Func {
+	m := c.M
+	reg := registryRegistrar(c)
+	if reg == nil {
+		return nil
+	}
+	family := map[*core.Func]bool{reg: true}
+	for changed := true; changed; {
+		changed = false
+		for _, cs := range m.CallSites() {
+			if family[cs.Callee] && !family[cs.Caller] && (cs.Caller.Recv == "registry" || cs.Caller.Recv == "componentRegistry") {
+				family[cs.Caller] = true
+				changed = true
+			}
+		}
+	}
+	for _, cs := range m.CallSites() {
+		if !family[cs.Callee] {
+			continue
+		}
+		if sel, ok := ast.Unparen(cs.Call.Fun).(*ast.SelectorExpr); ok && m.AccessPath(cs.Caller, sel.X).Has("storage.registry") {
+			return cs.Caller
+		}
+	}
+	return nil
 }
